@@ -81,3 +81,28 @@ def replay_readers(sched, blocked):
             if rs[x].record_number != 1 + count[x]:
                 return True, 'reader %d record_number %r after %d reads' % (x, rs[x].record_number, count[x]), 'C06/isolation'
     return False, 'ok', None
+
+
+def replay_configs(order, blocked, lens):
+    import copy
+    from cardutil import mciipm
+    from cardutil.config import config
+    cfgB = copy.deepcopy(config['bit_config'])
+    del cfgB['48']['field_processor']
+    nA, nB, nT = lens
+    msgA = {'MTI': '1240', 'DE2': '4444555566667777', 'PDS0023': 'a' * nA}
+    msgB = {'MTI': '1240', 'DE48': 'T' * nT, 'PDS0023': 'b' * nB}
+    fa, fb = io.BytesIO(), io.BytesIO()
+    wa = mciipm.IpmWriter(fa, blocked=blocked)
+    wb = mciipm.IpmWriter(fb, blocked=blocked, iso_config=cfgB)
+    for who in order.split('-then-'):
+        (wa if who == 'A' else wb).write(dict(msgA if who == 'A' else msgB))
+    wa.close()
+    wb.close()
+    da = list(mciipm.IpmReader(fa, blocked=blocked))
+    db = list(mciipm.IpmReader(fb, blocked=blocked, iso_config=cfgB))
+    if da[0].get('PDS0023', '') != msgA['PDS0023']:
+        return True, 'packaged configuration: PDS0023 came back as %r' % da[0].get('PDS0023'), 'C06/config-isolation'
+    if db[0].get('DE48') != msgB['DE48'] or db[0].get('PDS0023', '') != msgB['PDS0023']:
+        return True, 'custom configuration: DE48=%r PDS0023=%r' % (db[0].get('DE48')[:20], db[0].get('PDS0023')), 'C06/config-isolation'
+    return False, 'ok', None
